@@ -15,7 +15,7 @@ from apt_mirror.apt_mirror import PathCleaner
 
 EXPECTED = ["C04_quote_roundtrip", "C04_script_equiv", "C04_legacy_quote_counterexample", "C04_wipe_decision",
             "C04_wipe_disabled", "C04_kept_not_queued", "C04_symlink_kept", "C04_empty_tree_allowed", "C04_legacy_zero_division",
-            "C04_files_exact", "C04_folders_exact", "C04_symlink_never_queued"]
+            "C04_files_exact", "C04_folders_exact", "C04_symlink_never_queued", "C04_queued_inside", "C04_kept_survives", "C04_exec_exact"]
 LEVEL = "proof"
 RULE = ("tree = random directory tree (nesting <= 6, empty directories, symlinks to files/directories inside and outside the "
         "root incl. dangling ones, names from an alphabet with quotes, blanks, $, backslash, newline, leading dash, unicode) "
